@@ -7,7 +7,7 @@
      lib.VerifyCar     -- an IndexOffset of 0 is not compared with the end of the data
      lib.InspectCar    -- the CARv1 --full post-check compares how far Inspect read with the file size
      car index         -- identity CIDs are not put into the index (as LoadIndex / GenerateIndex do) *)
-From GoCar Require Import Bytes Varint Cid Header Frame V2Header Scan Index Store Traversal.
+From GoCar Require Import Bytes Varint Cid Header Frame V2Header Scan Index Store Traversal ExtractFs.
 
 Definition zero_v2hdr : v2hdr := mkv2 0 0 0 0 0.
 Definition max_index_cid : N := 2048.          (* carv2.DefaultMaxIndexCidSize *)
@@ -597,6 +597,80 @@ Definition get_dag (hdrdec : bytes -> option (list bytes * N)) (ver : N) (rootar
       end
     end
   end.
+
+(* ---- archives read from a pipe on standard input ---------------------------------------------------------- *)
+(* `cat x | car list` / `car root` / `car debug`.  [fixed] = the delivered fix
+   (notes/fixes/C19-stdin-pipe-carv2: standard input handed to the BlockReader as a plain io.Reader):
+   the pipe is read sequentially and gives what the file argument gives.  fixed = false is the code
+   before the fix: os.Stdin is an *os.File, so the BlockReader takes the seeking path for a CARv2
+   (Seek over the data padding, even when it is 0) and a pipe refuses to seek -- a CARv2 could not be
+   listed from a pipe; a CARv1 was read sequentially.
+   `car inspect` goes through NewReader(io.ReaderAt): ReadAt on a pipe fails for every archive (not
+   changed: it would have to buffer the whole input). *)
+Definition stdin_version_ok (fixed : bool) (hdrdec : bytes -> option (list bytes * N)) (file : bytes) : bool :=
+  fixed ||
+  match br_open hdrdec default_ropts file with
+  | Ok (v, _, _, _, _) => negb (v =? 2)
+  | Err _ => true              (* the failure is the one the file argument gives too *)
+  end.
+Definition list_car_stdin (fixed : bool) (hok : bytes -> bytes -> option bool) (hdrdec : bytes -> option (list bytes * N))
+           (file : bytes) : bool * list bytes :=
+  if stdin_version_ok fixed hdrdec file then list_car hok hdrdec file else (false, []).
+Definition root_car_stdin (fixed : bool) (hdrdec : bytes -> option (list bytes * N)) (file : bytes) : bool * list bytes :=
+  if stdin_version_ok fixed hdrdec file then root_car hdrdec file else (false, []).
+Definition inspect_car_stdin (file : bytes) : res istats := Err EOther.
+(* car detach-index list from a pipe: index.Unmarshal asks the *os.File for its position
+   (Seek(0, SeekCurrent)) and a pipe refuses: every index is rejected *)
+Definition detach_list_stdin (idxfile : bytes) : bool * list (bytes * N) := (false, []).
+
+(* ---- car list --unixfs (listUnixfs / printUnixFSNode) --------------------------------------------------------- *)
+(* Over the abstract UnixFS DAG of ExtractFs.v (decoding dag-pb / UnixFS data and the directory / HAMT
+   iteration order are the oracle, as for car extract): a depth-first listing, every directory entry's
+   path (path.Join of the names from the root) before what is below it; raw leaves, files and symlinks
+   print nothing more; a block that is not in the archive ends the command with an error after its
+   own path has been printed.  Names are single clean path components (what the generator produces). *)
+Definition ujoin (prefix n : bytes) : bytes :=
+  match prefix with [] => n | _ => prefix ++ [x2f] ++ n end.
+Fixpoint ulist_tree (prefix : bytes) (t : utree) : list bytes * bool :=
+  match t with
+  | UDir es =>
+    (fix go (l : list (name * utree)) : list bytes * bool :=
+       match l with
+       | [] => ([], true)
+       | (n, c) :: r =>
+         let p := ujoin prefix n in
+         let '(sub, ok) := ulist_tree p c in
+         if ok then let '(rest, ok2) := go r in (p :: sub ++ rest, ok2) else (p :: sub, false)
+       end) es
+  | UMissing => ([], false)
+  | UBad => ([], false)
+  | _ => ([], true)
+  end.
+Fixpoint ulist_roots (rs : list uroot) : list bytes * bool :=
+  match rs with
+  | [] => ([], true)
+  | RRaw :: r => ulist_roots r
+  | RNode t :: r =>
+    let '(ls, ok) := ulist_tree [] t in
+    if ok then let '(rest, ok2) := ulist_roots r in (ls ++ rest, ok2) else (ls, false)
+  end.
+
+(* ---- car debug | car compile (CARv1) ---------------------------------------------------------------------------- *)
+(* compile collects the patch's blocks in a Go map keyed by CID and writes them in map order: the
+   output is the header of the roots followed by every distinct CID once, in an order the program does
+   not determine.  [order] stands for that order (any permutation of the first occurrences).  That
+   re-encoding a block through dag-json reproduces its bytes is the codec libraries' business (true of
+   canonical dag-cbor / dag-pb / raw blocks) and observed, not modelled. *)
+Definition compile_out (roots : list bytes) (order : list block) : bytes :=
+  ld (enc_header (Some roots) 1) ++ enc_sections order.
+
+(* a canonical order for the executable model: ascending CID bytes *)
+Fixpoint ins_block (b : block) (l : list block) : list block :=
+  match l with
+  | [] => [b]
+  | x :: t => if bytes_ltb (fst b) (fst x) then b :: l else x :: ins_block b t
+  end.
+Definition sort_blocks (bs : list block) : list block := fold_left (fun acc b => ins_block b acc) bs [].
 
 (* ---- the CID list of car filter (cmd/car/filter.go parseCIDS) ------------------------------------------ *)
 (* bufio.ReadLine splits at '\n' (a final line needs no terminator), strings.TrimSpace removes the
